@@ -275,11 +275,14 @@ pub fn plant(r: &mut Rng, env: &Env) -> (String, &'static str) {
     let qubits = env.qubits();
     let q0 = qubits[0].clone();
     let (qn, qs) = env.qregs[0].clone();
-    match r.below(28) {
+    let kind = r.below(34);
+    // control-overlap plants carry extra weight (several shapes share one error variant)
+    let kind = if kind >= 28 { 20 } else { kind };
+    match kind {
         20 => {
             // control inside a whole-register target (multi-bit target)
-            let g = *r.pick(&["cx", "ch", "cz", "cy", "ccx", "cs"][..]);
-            let extra = if g == "ccx" && qubits.len() >= 2 { format!("{},", qubits[qubits.len() - 1]) } else if g == "ccx" { format!("{q0},") } else { String::new() };
+            let g = *r.pick(&["cx", "ch", "ch", "ch", "cz", "cy", "ccx", "cs", "cch"][..]);
+            let extra = if (g == "ccx" || g == "cch") && qubits.len() >= 2 { format!("{},", qubits[qubits.len() - 1]) } else if g == "ccx" || g == "cch" { format!("{q0},") } else { String::new() };
             (format!("{g} {extra}{}[{}],{qn};", qn, r.below(qs)), "InvalidControlMask")
         }
         21 => {
@@ -311,7 +314,14 @@ pub fn plant(r: &mut Rng, env: &Env) -> (String, &'static str) {
         }
         24 => ("gate selfrec a { selfrec a; }\nselfrec ".to_string() + &q0 + ";", "MacroError"),
         25 => ("gate ra a { rb a; }\ngate rb a { ra a; }\nra ".to_string() + &q0 + ";", "MacroError"),
-        26 => (format!("reset {qn}[{}];", qs + 1), "IdxOutOfRange"),
+        26 => {
+            if r.chance(1, 2) {
+                // a parameter name used as a qubit operand inside a gate body (then called)
+                (format!("gate confp(t) a {{ rx(t) t; }}\nconfp(0.5) {q0};"), "MacroError")
+            } else {
+                (format!("reset {qn}[{}];", qs + 1), "IdxOutOfRange")
+            }
+        }
         27 => {
             if let Some((cn, cs)) = env.cregs.first() {
                 (format!("measure {q0} -> {cn}[{}];", cs + r.below(2)), "IdxOutOfRange")
